@@ -73,6 +73,22 @@ type lookupCase struct {
 	Method int `json:"method"`
 	// Outside: extra addresses queried that must all be errors if not inside
 	Outside []int `json:"outside"`
+	// Literal: the response value is not parsed from a frame but built from the payload only (Data set, the redundant byte-count
+	// field left unset - Bytes() derives the byte count from len(Data), so this is a complete description of the response)
+	Literal bool `json:"literal,omitempty"`
+}
+
+func literalResp(f spec.Framing, fc uint8, payload []byte) packet.Response {
+	data := append([]byte(nil), payload...)
+	switch {
+	case fc == 1 && f == spec.TCP:
+		return &packet.ReadCoilsResponseTCP{MBAPHeader: packet.MBAPHeader{TransactionID: 9}, ReadCoilsResponse: packet.ReadCoilsResponse{UnitID: 3, Data: data}}
+	case fc == 1:
+		return &packet.ReadCoilsResponseRTU{ReadCoilsResponse: packet.ReadCoilsResponse{UnitID: 3, Data: data}}
+	case f == spec.TCP:
+		return &packet.ReadDiscreteInputsResponseTCP{MBAPHeader: packet.MBAPHeader{TransactionID: 9}, ReadDiscreteInputsResponse: packet.ReadDiscreteInputsResponse{UnitID: 3, Data: data}}
+	}
+	return &packet.ReadDiscreteInputsResponseRTU{ReadDiscreteInputsResponse: packet.ReadDiscreteInputsResponse{UnitID: 3, Data: data}}
 }
 
 func isSet(resp packet.Response, method int, start, addr uint16) (bool, error) {
@@ -108,6 +124,12 @@ func runLookup(c lookupCase) harness.Result {
 	if err != nil {
 		return harness.Fail("cannot parse the well-formed fc%d response: %v", c.FC, err)
 	}
+	if c.Literal {
+		resp = literalResp(c.Framing, c.FC, c.Payload)
+		if !bytes.Equal(resp.Bytes(), frame) {
+			return harness.Fail("harness: the response built from the payload encodes to %x, the frame is %x", resp.Bytes(), frame)
+		}
+	}
 	nbits := 8 * len(c.Payload)
 	var o []obs
 	for i := 0; i < nbits && c.Start+i <= 65535; i++ {
@@ -130,6 +152,9 @@ func runLookup(c lookupCase) harness.Result {
 		}
 	}
 	labels := []string{fmt.Sprintf("fc%d", c.FC), fmt.Sprintf("bytes:%s", sizeClass(len(c.Payload)))}
+	if c.Literal {
+		labels = append(labels, "response-built-from-payload")
+	}
 	res := verdict(fmt.Sprintf("fc%d payload %x start %d", c.FC, []byte(c.Payload), c.Start), o, labels)
 	res.Weight = int64(len(o) + len(c.Outside))
 	if len(c.Payload) < 2 {
@@ -167,6 +192,7 @@ func genLookup(t *rapid.T) lookupCase {
 		c.Outside = append(c.Outside, c.Start+8*n+d)
 	}
 	c.Outside = append(c.Outside, 0, 65535, rapid.IntRange(0, 65535).Draw(t, "far"))
+	c.Literal = rapid.IntRange(0, 3).Draw(t, "literal") == 0
 	return c
 }
 
